@@ -99,7 +99,7 @@ def gen_case(rng, tier):
             p = {"all": True, "none": False, "alt": b % 2 == 0, "rand": rng.chance(0.6)}[mode]
             present.append(p)
         order = [b for b in range(nblocks) if present[b]]
-        place = rng.weighted([("asc", 2), ("desc", 2), ("random", 4), ("gaps", 2), ("high", 1)])
+        place = rng.weighted([("asc", 2), ("desc", 2), ("random", 4), ("gaps", 2), ("high", 1), ("logical", 2)])
         if place == "desc":
             order.reverse()
         elif place in ("random", "gaps", "high"):
@@ -112,6 +112,9 @@ def gen_case(rng, tier):
         for b in order:
             if place == "gaps":
                 pos += rng.randrange(0, 3 * unit)
+            if place == "logical":
+                # block b lies where it would lie in a fully allocated image: an absent block leaves a hole of one unit
+                pos = first + b * unit
             entries[b] = pos
             pos += unit
         body_end = pos * SECTOR
